@@ -446,13 +446,26 @@ class TimeTriggeredPlanValidator(engines.engine.Engine, mixins.PlanValidatorMixi
                     )
                 g_value = self._ground_expression(instantiated_effect.value, ai)
                 if instantiated_effect.kind == EffectKind.ASSIGN:
-                    result[g_fluent] = se.evaluate(g_value, state=state)
+                    new_value = se.evaluate(g_value, state=state)
+                    old_value = result.get(g_fluent, None)
+                    # two instances of the same forall effect can write the same ground
+                    # fluent: same rules as for two effects (see _apply_effects)
+                    if (
+                        old_value is not None
+                        and old_value.constant_value() != new_value.constant_value()
+                    ):
+                        if not g_fluent.type.is_bool_type():
+                            raise UPConflictingEffectsException("Double effect")
+                        new_value = em.TRUE()  # add-after-delete
+                    result[g_fluent] = new_value
                 else:
-                    f_value = (
-                        updates[g_fluent]
-                        if g_fluent in updates
-                        else state.get_value(g_fluent)
-                    )
+                    if g_fluent in result:
+                        # accumulate with the other instances of this forall effect
+                        f_value = result[g_fluent]
+                    elif g_fluent in updates:
+                        f_value = updates[g_fluent]
+                    else:
+                        f_value = state.get_value(g_fluent)
                     if instantiated_effect.kind == EffectKind.DECREASE:
                         result[g_fluent] = se.evaluate(
                             em.Minus(f_value, g_value), state=state
